@@ -14,16 +14,16 @@ import tempfile
 import numpy as np
 
 KINDS = {
-    "samples": {"reads": ["orbit", "t0", "pack", "median", "mean", "map", "gapA", "gapB", "coverA", "spanA", "unimodal", "unmarg"],
+    "samples": {"reads": ["orbit", "t0", "phase1", "pack", "packU", "median", "mean", "map", "gapA", "gapB", "coverA", "spanA", "unimodal", "unmarg"],
                 "muts": ["wrapK", "setK", "setLL", "setP"], "derivs": ["copy", "slice2", "mask", "pickle", "roundtrip"]},
-    "data": {"reads": ["t", "rv", "ivar", "tref", "phase", "merge", "series", "plot", "plotrel"], "muts": [],
-             "derivs": ["copy", "slice", "mask", "rebuild"]},
-    "prior": {"reads": ["s00", "s01", "s10", "s11"], "muts": [], "derivs": []},
-    "sampler": {"reads": ["mA", "mAf", "mB"], "muts": [], "derivs": [], "draws": ["rA", "rAm", "rB", "iA"]},
+    "data": {"reads": ["t", "rv", "ivar", "tref", "phase", "trend", "merge", "series", "plot", "plotrel"], "muts": [],
+             "derivs": ["copy", "slice", "mask", "pickle", "rebuild"]},
+    "prior": {"reads": ["s00", "s01", "s10", "s11", "shape", "touch"], "muts": [], "derivs": []},
+    "sampler": {"reads": ["mA", "mAf", "mB", "mBm"], "muts": [], "derivs": [], "draws": ["rA", "rAm", "rB", "iA"]},
 }
 # mirror of History.Owner, used ONLY to choose which histories a property's check replays (the verdict's owner is the monitor's)
 OWNER = {"samples": {"map": "C19", "gapA": "C19", "gapB": "C19", "coverA": "C19", "spanA": "C19", "unimodal": "C19", "unmarg": "C04"},
-         "data": {}, "prior": {}, "sampler": {"mA": "C05", "mAf": "C05", "mB": "C05"}}
+         "data": {}, "prior": {"shape": "C18", "touch": "C18"}, "sampler": {"mA": "C05", "mAf": "C05", "mB": "C05", "mBm": "C05"}}
 DEFAULT_OWNER = {"samples": "C17", "data": "C15", "prior": "C09", "sampler": "C10"}
 T0 = 55000.0
 
@@ -133,8 +133,16 @@ class SamplesKind:
             return obj, _guard(lambda: np.array([obj.get_orbit(k).radial_velocity(tt).to_value(u.km / u.s) for k in range(n)]))
         if op == "t0":
             return obj, _guard(lambda: obj.get_t0())
+        if op == "phase1":
+            return obj, _guard(lambda: obj.get_time_with_phase(1.0 * u.rad))
         if op == "pack":
             return obj, _guard(lambda: (obj.pack(nonlinear_only=False)[0], [str(x) for x in obj.pack(nonlinear_only=False)[1].values()]))
+        if op == "packU":      # the same columns asked for in other units
+            def f():
+                uu = {"P": u.yr, "e": u.one, "omega": u.deg, "M0": u.rad, "s": u.m / u.s, "K": u.m / u.s, "v0": u.km / u.s}
+                arr, un = obj.pack(units=uu, nonlinear_only=False)
+                return (arr, [str(x) for x in un.values()])
+            return obj, _guard(f)
         if op == "median":
             return obj, _guard(lambda: obj.median_period()["P"])
         if op == "mean":
@@ -208,7 +216,7 @@ class DataKind:
         else:
             err = g.uniform(0.2, 1.0, n) * u.km / u.s
         tin = t if variant in (0, 3) else Time(t, format="mjd", scale="tcb" if variant == 1 else "utc")
-        tref = None if seed % 2 == 0 else Time(T0 + 1.5, format="mjd", scale="tcb")
+        tref = [None, Time(T0 + 1.5, format="mjd", scale="tcb"), False][seed % 3]
         return {"t": tin, "rv": rv, "err": err, "tref": tref, "clean": variant == 2, "seed": seed, "workdir": workdir, "script": tuple(script)}
 
     def make(self, inp, pristine):
@@ -234,6 +242,12 @@ class DataKind:
             return obj, _guard(lambda: obj.t_ref)
         if op == "phase":
             return obj, _guard(lambda: obj.phase(P=7.3 * u.day))
+        if op == "trend":       # the design matrix of a linear trend: epochs relative to the reference epoch the kernel will use
+            def f():
+                from thejoker.data_helpers import validate_prepare_data
+                d, ids, M = validate_prepare_data(obj, 2, 0)
+                return (d.t, np.asarray(M, dtype=float))
+            return obj, _guard(f)
         if op == "merge":
             def f():
                 from thejoker.data_helpers import validate_prepare_data
@@ -267,6 +281,8 @@ class DataKind:
             m[0] = False
             m[len(obj) // 2] = False
             return obj[m], None
+        if op == "pickle":
+            return pickle.loads(pickle.dumps(obj)), None
         if op == "rebuild":
             # the used object: a second RVData from the arrays the caller still holds; the twin: from arrays nobody has touched
             return self.make(self.inputs(inp["seed"], inp["workdir"], inp["script"]) if inp.get("pristine") else inp, False), None
@@ -278,7 +294,8 @@ class PriorKind:
     kind = "prior"
 
     def inputs(self, seed, workdir, script=()):
-        return {"seed": seed, "variant": seed % 3}
+        # histories in which the caller touches its list of offset priors are run on a prior that has one
+        return {"seed": seed, "variant": 3 if "touch" in script else seed % 3, "offsets": []}
 
     def make(self, inp, pristine):
         import astropy.units as u
@@ -289,10 +306,32 @@ class PriorKind:
         if v == 1:
             return tj.JokerPrior.default(P_min=1 * u.day, P_max=50 * u.day, sigma_K0=20 * u.km / u.s, P0=30 * u.day,
                                          sigma_v=[40 * u.km / u.s, 0.5 * u.km / u.s / u.day], poly_trend=2)
+        if v == 3:
+            import pymc as pm
+            import thejoker.units as xu
+            with pm.Model() as m:
+                inp["model"] = m
+                inp["offsets"].append(xu.with_unit(pm.Normal("dv0_1", 0.0, 5.0), u.km / u.s))
+                return tj.JokerPrior.default(P_min=2 * u.day, P_max=300 * u.day, sigma_K0=25 * u.km / u.s, sigma_v=80 * u.km / u.s,
+                                             v0_offsets=inp["offsets"])
         return tj.JokerPrior.default(P_min=5 * u.day, P_max=500 * u.day, sigma_K0=300 * u.km / u.s, P0=0.5 * u.year,
                                      sigma_v=10 * u.km / u.s, s=0.5 * u.km / u.s)
 
     def apply(self, obj, op, inp):
+        if op == "shape":
+            return obj, _guard(lambda: (tuple(str(x) for x in obj.par_names), int(obj.n_offsets), int(obj.poly_trend),
+                                        tuple(sorted(str(k) for k in obj.pars))))
+        if op == "touch":
+            def f():
+                import astropy.units as u
+                import pymc as pm
+                import thejoker.units as xu
+                with inp["model"]:
+                    inp["offsets"].append(xu.with_unit(pm.Uniform("dv0_%d" % (len(inp["offsets"]) + 1), -3.0, 3.0), u.km / u.s))
+                return "touched"
+            if "model" not in inp:
+                return obj, "touched"
+            return obj, _guard(f)
         gl, lp = op[1] == "1", op[2] == "1"
 
         def f():
@@ -327,7 +366,7 @@ class SamplerKind:
     def make(self, inp, pristine):
         import thejoker as tj
         from . import fixture
-        inp["lib"] = fixture.Library(inp["N"], seed=inp["seed"], lnprior=True)
+        inp["lib"] = fixture.Library(inp["N"], seed=inp["seed"], lnprior=True, s_value=3.0 if inp["seed"] % 2 else 0.0, s_unit="km/s")
         inp["A"] = fixture.make_data(n=8, seed=inp["seed"] % 5 + 1)
         inp["B"] = fixture.make_data(n=6, seed=inp["seed"] % 5 + 11, unit="m/s")
         d = tempfile.mkdtemp(prefix="hs-", dir=inp["workdir"])
@@ -347,6 +386,8 @@ class SamplerKind:
             return obj, _guard(lambda: np.asarray(obj.marginal_ln_likelihood(inp["A"], inp["libfile"])))
         if op == "mB":
             return obj, _guard(lambda: np.asarray(obj.marginal_ln_likelihood(inp["B"], lib)))
+        if op == "mBm":
+            return obj, _guard(lambda: np.asarray(obj.marginal_ln_likelihood(inp["B"], lib, in_memory=True)))
         if op == "rA":
             return obj, _guard(lambda: table(obj.rejection_sample(inp["A"], lib, return_logprobs=True)))
         if op == "rAm":
@@ -374,7 +415,7 @@ def execute(case):
         e = {"op": op, "cls": c, "content": [], "same": True, "raised": False}
         if c in ("read", "draw"):
             used, got = K.apply(used, op, caller)
-            key = (kind, case["seed"], tuple(content), op)
+            key = (kind, case["seed"], "touch" in case["script"], tuple(content), op)
             if kind == "prior" and key in _twin_cache:
                 want = _twin_cache[key]
             else:
